@@ -138,7 +138,28 @@ void tag_bytes(std::uint64_t tag, unsigned char* out, unsigned n) { for (unsigne
 // value classes: element values a defect could single out (zero, all ones, sign bit only, small positive, small negative).
 // cls 0 = unique tags; otherwise 8-byte groups are replaced by the class value according to the tag's bits, so that
 // special and ordinary elements are mixed within one vector whatever the element size.
-void class_bytes(std::uint64_t tag, unsigned cls, unsigned char* out, unsigned n) {
+// class 6: per-ELEMENT special values for element size es: 0, all ones, sign bit only (INT_MIN / -0.0), largest positive, 1, 0x7F..,
+// quiet NaN with a payload, 0x80 in the low byte only; every second element keeps its unique tag
+void element_specials(std::uint64_t tag, unsigned es, unsigned char* out, unsigned n) {
+    tag_bytes(tag, out, n);
+    for (unsigned e = 0; (e + 1) * es <= n; ++e) {
+        unsigned sel = (unsigned)((tag >> (e % 13)) + e * 5) % 16; unsigned char* q = out + e * es;
+        if (sel >= 8) continue;
+        std::memset(q, 0, es);
+        switch (sel) {
+            case 0: break;
+            case 1: std::memset(q, 0xFF, es); break;
+            case 2: q[es - 1] = 0x80; break;
+            case 3: std::memset(q, 0xFF, es); q[es - 1] = 0x7F; break;
+            case 4: q[0] = 1; break;
+            case 5: q[0] = 0x7F; break;
+            case 6: if (es >= 4) { q[es - 1] = 0x7F; q[es - 2] = es == 4 ? 0xC0 : 0xF8; q[0] = 0x01; } else q[es - 1] = 0x7F; break;
+            default: q[0] = 0x80; break;
+        }
+    }
+}
+void class_bytes(std::uint64_t tag, unsigned cls, unsigned char* out, unsigned n, unsigned es = 4) {
+    if (cls == 6) { element_specials(tag, es ? es : 4, out, n); return; }
     tag_bytes(tag, out, n);
     if (!cls) return;
     for (unsigned g = 0; g * 8 < n; ++g) {
@@ -628,13 +649,13 @@ struct MemEngine : Engine {
         for (unsigned k = 0; k < 4; ++k) { tag_bytes(1000 + k, mreg[k], 64); std::memcpy(areg[k], mreg[k], 64); }
         int stepno = 0;
         for (auto& stp : pl.steps) {
-            if (stp.op == "setreg") { unsigned k = (unsigned)(stp.unum("r") & 3); class_bytes(stp.unum("tag"), (unsigned)stp.unum("cls") % 6, mreg[k], 64); std::memcpy(areg[k], mreg[k], 64); r.log.linef("%d setreg r=%u tag=%llu cls=%u", stepno, k, (unsigned long long)stp.unum("tag"), (unsigned)stp.unum("cls") % 6); s.probes["register_value_class_" + std::to_string((unsigned)stp.unum("cls") % 6)]++; }
+            if (stp.op == "setreg") { unsigned k = (unsigned)(stp.unum("r") & 3); class_bytes(stp.unum("tag"), (unsigned)stp.unum("cls") % 7, mreg[k], 64, (unsigned)stp.unum("e", 4)); std::memcpy(areg[k], mreg[k], 64); r.log.linef("%d setreg r=%u tag=%llu cls=%u", stepno, k, (unsigned long long)stp.unum("tag"), (unsigned)stp.unum("cls") % 7); s.probes["register_value_class_" + std::to_string((unsigned)stp.unum("cls") % 7)]++; }
             else if (stp.op == "fill") {
                 // the owner of the buffer rewrites part of it with a value class (through the host view; protections do not matter)
                 std::size_t off = (std::size_t)stp.unum("p") % WBYTES, len = std::min<std::size_t>((std::size_t)stp.unum("len"), 256); if (off + len > WBYTES) len = WBYTES - off;
-                unsigned char tmp[256]; class_bytes(stp.unum("tag"), (unsigned)stp.unum("cls") % 6, tmp, (unsigned)len);
+                unsigned char tmp[256]; class_bytes(stp.unum("tag"), (unsigned)stp.unum("cls") % 7, tmp, (unsigned)len, (unsigned)stp.unum("e", 4));
                 std::memcpy(model + off, tmp, len); std::memcpy(g_host + off, tmp, len);
-                r.log.linef("%d fill p=%zu len=%zu cls=%u", stepno, off, len, (unsigned)stp.unum("cls") % 6); s.probes["memory_value_class_fills"]++;
+                r.log.linef("%d fill p=%zu len=%zu cls=%u", stepno, off, len, (unsigned)stp.unum("cls") % 7); s.probes["memory_value_class_fills"]++;
             }
             else if (stp.op == "load" || stp.op == "store" || stp.op == "gather" || stp.op == "scatter" || stp.op == "fromarr" || stp.op == "toarr" || stp.op == "extract" || stp.op == "insert" || stp.op == "prefetch") memory_step(stp, stepno);
             else { r.harness_error = "unknown step op " + stp.op; break; }
@@ -777,7 +798,7 @@ struct MemEngine : Engine {
         if (i >= sweep.size() + pfsweep.size()) { stream_plan(i - sweep.size() - pfsweep.size(), out); return; }
         if (i >= sweep.size()) { pf_sweep_plan(i - sweep.size(), out); return; }
         const SweepCase& sc = sweep[(std::size_t)i]; const MType* t = types[sc.type];
-        Step sr; sr.op = "setreg"; sr.set("r", 1); sr.setu("tag", i * 3 + 7); sr.setu("cls", (i / 7) % 3 == 0 ? (i % 6) : 0); out.steps.push_back(sr);
+        Step sr; sr.op = "setreg"; sr.set("r", 1); sr.setu("tag", i * 3 + 7); sr.setu("cls", (i / 7) % 3 == 0 ? (i % 7) : 0); sr.setu("e", t->elem); out.steps.push_back(sr);
         if (sc.op == 0 || sc.op == 2 || sc.op == 4) { }   // loads read the run's seeded memory; see fill below
         Step s; s.set("type", t->name); s.set("r", 1); s.setu("poison", i % 250 + 1);
         static const char* OPN[8] = {"load", "store", "gather", "scatter", "fromarr", "toarr", "extract", "insert"};
@@ -794,7 +815,7 @@ struct MemEngine : Engine {
             s.set("form", sc.form ? "ct" : "rt"); s.setu("n", sc.n); gs_indices(s, t, sc.n, sc.place, i, sc.op == 3); s.set("fault", "none");
         } else if (sc.op == 4) { s.setu("n", t->width); place(s, t, t->width, false, false, sc.place ? "start_flush" : "end_flush", 3, 0, 'N'); }
         else if (sc.op >= 6) { s.setu("lane", sc.n); s.setu("tag", i + 99); }
-        if ((sc.op == 0 || sc.op == 4) && i % 3 == 1) { Step f; f.op = "fill"; f.setu("p", s.unum("p")); f.setu("len", (std::uint64_t)t->width * t->elem); f.setu("tag", i + 11); f.setu("cls", 1 + i % 5); out.steps.push_back(f); }
+        if ((sc.op == 0 || sc.op == 4) && i % 3 == 1) { Step f; f.op = "fill"; f.setu("p", s.unum("p")); f.setu("len", (std::uint64_t)t->width * t->elem); f.setu("tag", i + 11); f.setu("cls", 1 + i % 6); f.setu("e", t->elem); out.steps.push_back(f); }
         out.steps.push_back(s);
         if (sc.op == 1 || sc.op == 3) { Step l = s; l.op = sc.op == 1 ? "load" : "gather"; l.set("r", 2); l.set("fault", "none"); l.kv.erase(std::remove_if(l.kv.begin(), l.kv.end(), [](const std::pair<std::string, std::string>& p) { return p.first == "k" || p.first == "ntag"; }), l.kv.end());
             if (!(sc.op == 3 && (sc.place == 1 || sc.place >= 3))) out.steps.push_back(l); }
@@ -861,7 +882,7 @@ struct MemEngine : Engine {
             }
             const MType* t = pool[r.below(pool.size())]; const unsigned W = t->width;
             unsigned w = (unsigned)r.below(100);
-            if (w < 12) { Step s; s.op = "setreg"; s.setu("r", r.below(4)); s.setu("tag", r.below(1u << 24)); s.setu("cls", r.chance(1, 2) ? 0 : r.below(6)); out.steps.push_back(s); continue; }
+            if (w < 12) { Step s; s.op = "setreg"; s.setu("r", r.below(4)); s.setu("tag", r.below(1u << 24)); s.setu("cls", r.chance(1, 2) ? 0 : r.below(7)); s.setu("e", t->elem); out.steps.push_back(s); continue; }
             Step s; s.set("type", t->name); s.setu("r", r.below(4)); s.setu("poison", r.chance(2, 3) ? r.below(250) + 1 : 0);
             unsigned n = (unsigned)(r.chance(1, 6) ? W + r.below(3) : r.chance(1, 8) ? 0 : r.below(W + 1));
             if (w < 40 || w < 68) {
@@ -874,7 +895,7 @@ struct MemEngine : Engine {
                 unsigned d = r.chance(1, 3) ? (unsigned)r.below(W + 1) : 0;
                 char bad = store ? (r.chance(1, 2) ? 'N' : r.chance(1, 2) ? 'R' : 'H') : (r.chance(2, 3) ? 'N' : 'H');
                 place(s, t, n, form == 1 || form == 3, store, kind, 1 + (unsigned)r.below(6), d, bad);
-                if (!store && r.chance(1, 3)) { Step f; f.op = "fill"; f.setu("p", s.unum("p")); f.setu("len", (std::uint64_t)t->width * t->elem); f.setu("tag", r.below(1u << 24)); f.setu("cls", 1 + r.below(5)); out.steps.push_back(f); }
+                if (!store && r.chance(1, 3)) { Step f; f.op = "fill"; f.setu("p", s.unum("p")); f.setu("len", (std::uint64_t)t->width * t->elem); f.setu("tag", r.below(1u << 24)); f.setu("cls", 1 + r.below(6)); f.setu("e", t->elem); out.steps.push_back(f); }
                 unsigned fk = (unsigned)r.below(10);
                 if ((fmask & 1) && fk < 3) s.set("fault", "watch");
                 else if ((fmask & 2) && store && fk < (tier == "thorough" ? 5u : 3u)) { s.set("fault", "neigh"); s.setu("k", r.below(4096)); s.setu("ntag", r.below(1u << 20)); }
